@@ -3,10 +3,29 @@ from typing import Tuple, Union
 from . import xl, xlerrors, func_xltypes, xlcriteria
 
 
+def _numbers(args):
+    """The numbers an aggregate works on.
+
+    Arguments given directly are converted (numeric text, logical values);
+    of the cells of a range only those holding numbers count - text and
+    empty cells are ignored.
+    """
+    values = []
+    for arg in args:
+        if isinstance(arg, func_xltypes.Array):
+            values.extend(
+                item for item in arg.flat
+                if not func_xltypes.Text.is_type(item)
+                and not func_xltypes.Blank.is_blank(item))
+        else:
+            values.append(arg)
+    return xl._validate(Tuple[func_xltypes.XlNumber], values, 'numbers')
+
+
 @xl.register()
 @xl.validate_args
 def AVERAGE(
-        *numbers: Tuple[func_xltypes.Number]
+        *numbers
 ) -> func_xltypes.Number:
     """Returns the average (arithmetic mean) of the arguments.
 
@@ -15,8 +34,7 @@ def AVERAGE(
     """
     # Only numbers are averaged; empty cells and text found in ranges are
     # ignored (they do not count as zeros).
-    numbers = list(
-        filter(func_xltypes.Number.is_type, xl.flatten(numbers)))
+    numbers = _numbers(numbers)
 
     # If no non numeric cells, return zero (is what excel does)
     if len(numbers) < 1:
@@ -121,29 +139,33 @@ def COUNTIFS(
 
 @xl.register()
 @xl.validate_args
-def MAX(*numbers: Tuple[func_xltypes.Number]):
+def MAX(*numbers):
     """Returns the largest value in a set of values.
 
     https://support.office.com/en-us/article/
         max-function-e0012414-9ac8-4b34-9a47-73e662c08098
     """
+    numbers = _numbers(numbers)
+
     # If no non numeric cells, return zero (is what excel does)
     if len(numbers) < 1:
         return 0
 
-    return max(filter(func_xltypes.Number.is_type, numbers))
+    return max(numbers)
 
 
 @xl.register()
 @xl.validate_args
-def MIN(*numbers: Tuple[func_xltypes.Number]):
+def MIN(*numbers):
     """Returns the smallest number in a set of values.
 
     https://support.office.com/en-us/article/
         min-function-61635d12-920f-4ce2-a70f-96f202dcc152
     """
+    numbers = _numbers(numbers)
+
     # If no non numeric cells, return zero (is what excel does)
     if len(numbers) < 1:
         return 0
 
-    return min(filter(func_xltypes.Number.is_type, numbers))
+    return min(numbers)
